@@ -72,14 +72,21 @@ def _system(L, n, nb, cap, gmem, emem, inj, v, dt):
 
 
 def step(cells, radius, length, ra, cm, v, dt, scheme="bwd_euler", gmem=None, emem=None, inj=None,
-         gterm_extra=None):
-    """One voltage step of the scheme. gmem in S/cm^2 (density), emem mV, inj nA per comp."""
+         g_abs=None, ge_abs=None):
+    """One voltage step of the scheme. gmem in S/cm^2 (density), emem mV, inj nA per comp.
+    g_abs (uS) / ge_abs (uS*mV) add absolute (point-process) conductances per compartment: I = g_abs*v - ge_abs."""
     area, cap, g_half = geometry(radius, length, ra, cm)
     L, n, nb = laplacian(cells, g_half)
     v = np.asarray(v, dtype=np.float64)
     G = np.zeros(n) if gmem is None else np.asarray(gmem, dtype=np.float64) * area * 1e-2  # uS
     E = np.zeros(n) if emem is None else np.asarray(emem, dtype=np.float64)
     I = np.zeros(n) if inj is None else np.asarray(inj, dtype=np.float64)
+    if g_abs is not None:
+        # fold the point conductances into (G, G*E + I): G_tot*v - (G*E + ge_abs)
+        ga = np.asarray(g_abs, dtype=np.float64)
+        I = I + G * E + (0.0 if ge_abs is None else np.asarray(ge_abs, dtype=np.float64))
+        G = G + ga
+        E = np.zeros(n)
     if scheme == "bwd_euler":
         A, b = _system(L, n, nb, cap, G, E, I, v, dt)
         return np.linalg.solve(A, b)[:n]
